@@ -57,9 +57,14 @@ def loop_case(rng):
                 bigint = True
         elif ty == "float":
             vals = [rng.choice([0.5, 1.25, 2.0, 3.5, 7.0]) for _ in range(n)]
+            if rng.random() < 0.2:
+                vals = rng.choice([[0.0, -0.0], [-0.0, 0.0, 1.5, -0.0], [1.25, 1.25, -0.0, 0.0]])        # equal values in a row; zeros of both signs
+                n = len(vals)
             items = [repr(v) if rng.random() < 0.7 else ("%d" % int(v) if v == int(v) else repr(v)) for v in vals]
             for k, v in enumerate(vals):
-                if rng.random() < 0.15:
+                if v == 0:
+                    items[k] = repr(v)          # the sign of a zero is part of the value: written as it is
+                elif rng.random() < 0.15:
                     items[k] = rng.choice(["%r / 2" % (2 * v), "%r * 1" % v, "%r + 0" % v])       # computed (numpy) values
         elif ty == "bool":
             vals = [rng.random() < 0.5 for _ in range(n)]
